@@ -8,6 +8,9 @@ CONSTANTS
   CtShape = "one"
   MaxSteps = 0
   Escaping = "asCoded"
+  Catalogue <- CatNone
+  MaxHist = 0
+  DecoderScope = "perIteration"
   CopyVariant = "copy"
 INVARIANT RoundTrip
 CHECK_DEADLOCK FALSE
